@@ -321,6 +321,17 @@ Fails(e) == (IF IsOpEvent(e) THEN FaultFails(e) ELSE {}) \cup
     [] e.e = "BMap" -> BMapFails(e)
     [] e.e = "Verify" -> VerifyFails(e)
     [] e.e = "Generate" -> GenerateFails(e)
+    [] e.e = "ToolVerify" -> IF On("C20") THEN F(P_VerifyExit(e.good, e.bad, e.exit), "C20.verify-exit") ELSE {}
+    [] e.e = "ToolRoundTrip" -> IF On("C20") THEN F(e.gen_exit = 0 /\ e.tokdots = 2, "C20.generate") \cup F(e.gen_exit = 0 => e.ver_exit = 0, "C20.roundtrip") ELSE {}
+    [] e.e = "ToolKeyConv" ->
+         IF ~On("C20") THEN {}
+         ELSE F(e.exit1 = 0 /\ e.nkeys1 = 1, "C20.key2jwk-exit")
+              \cup (IF e.exit1 # 0 \/ e.nkeys1 # 1 THEN {} ELSE
+                      F(P_SameKey(e.imp, e.kty, e.bits, e.priv), "C20.key2jwk-samekey")
+                      \cup (IF e.kty = "EC" THEN F(P_EcWidths(e.bits, e.priv, e.xlen, e.ylen, e.dlen), "C20.ec-width") ELSE {})
+                      \cup F(e.exit2 = 0 /\ e.nfiles = 1, "C20.jwk2key-exit")
+                      \cup (IF e.exit2 # 0 \/ e.nfiles # 1 \/ e.exit3 # 0 THEN F(e.exit3 = 0, "C20.jwk2key-output")
+                            ELSE F(P_SameKey(e.imp2, e.kty, e.bits, e.priv), "C20.jwk2key-samekey")))
     [] e.e = "Thread" -> IF On("C18") THEN F(e.seq = e.par, "C18.results") ELSE {}
     [] e.e = "Codec" -> CodecFails(e)
     [] e.e = "CodecBatch" -> CodecBatchFails(e)
